@@ -375,6 +375,11 @@ pub fn run_case(c: &Sexp) -> Sexp {
         295 => |p: &[i64]| div().style(("color", &"redder"[..[3, 6][at(p, 0) as usize % 2]])).child(t(p, 5)),
         296 => |p: &[i64]| div().inner_html(&"<b>x</b><i>y</i>"[..[0, 8, 16][at(p, 0) as usize % 3]]),
         297 => |p: &[i64]| div().attr("data-x", pre(p, 0)).child(t(p, 5)),
+        // ------------------------------------------------------------------ pairs whose NAME changes between rebuilds
+        298 => |p: &[i64]| div().style((["color", "background-color", "margin"][at(p, 0) as usize % 3], col(p, 1))).child(t(p, 5)),
+        299 => |p: &[i64]| div().style((["color", "background-color", "margin"][at(p, 0) as usize % 3].to_string(), col(p, 1).to_string())).child(t(p, 5)),
+        232 => |p: &[i64]| div().class((["on", "a", "b"][at(p, 0) as usize % 3], b(p, 1))).child(t(p, 5)),
+        264 => |p: &[i64]| div().attr(["data-x", "data-y"][at(p, 0) as usize % 2], s(p, 1)).child(t(p, 5)),
         // ------------------------------------------------------------------ ViewTemplate
         280 => |p: &[i64]| ViewTemplate::new(div().child((t(p, 0), span().child(s(p, 1)), s(p, 2)))),
         281 => |p: &[i64]| ViewTemplate::new(p_el().id(t(p, 0)).class(cls(p, 1)).child(t(p, 2))),
